@@ -358,7 +358,7 @@ func SCTPAnswer(a Args) error {
 		mux.HandleFunc("ALL", func(dc diam.Conn, m *diam.Message) {
 			if m.Header.CommandFlags&0x10 != 0 { // the trigger, on another stream
 				if pend != nil {
-					pend.Answer(uint32(pend.Header.EndToEndID % 2 * 2001)).WriteToWithRetry(dc, 2)
+					pend.Answer(uint32(pend.Header.EndToEndID%2*2001)).WriteToWithRetry(dc, 2)
 					pend = nil
 				}
 				done <- struct{}{}
